@@ -55,6 +55,11 @@ CLAIMED = {
   ref="DESIGN.md §6 C18",
   note="Trusted: Coq kernel; hand-written model of Header::from_raw / fix_based_on_file_len tied by differential execution; layouts through the C02 model; tables regenerated from /repo. The defect theorems carry explicit hypotheses (the defective header's own layout must not already match the length; array_size not 0 for the mip repairs).",
   tech="Coq proof (case analysis over the ordered repair attempts; find/filter lemmas) + differential execution on defect-injected headers"),
+ "C03": dict(
+  text="Coq theorems for every block: BC1 palettes (both modes, mode chosen by endpoint order only for BC1; BC2/BC3 always four colours) have every channel of every entry equal to the exact 2/3-1/3 or 1/2-1/2 interpolation of the 5/6-bit fields rounded to the nearest 8-bit value; BC4/BC5/BC3-alpha palettes (UNORM and SNORM with both minimum codes = -1, 6- or 4-interpolant mode by endpoint order) are the exact interpolation rounded to nearest at 8 and 16 bits; BC2 alpha and the 16-bit widening are exact; pixel selection reads the documented index bits. BC7: for every 16-byte block the decoder as implemented (promote, decompress_single_index + get_index on a u64, x4 weights, tables regenerated from the source on every run) equals a specification-shaped decoder (mode table, bit replication, indices read one by one with anchors one bit narrower, ((64-w)e0 + w e1 + 32) >> 6, frozen tables), interpolation is the exact weighted average rounded to nearest and never wraps u16, reserved mode gives zeros. Tied to the code by differential execution of dds::decode against the extracted model on exhaustive-by-decomposition block families.",
+  ref="DESIGN.md §6 C03",
+  note="Partial: BC6H is not modelled and the F32 output precision is not modelled (U8 and U16 are). The BC7 partition tables of the specification were transcribed from the pinned commit (no independent copy offline) - their structure is proved and any later change of the source tables breaks tables_tie and the correspondence. Trusted: Coq kernel, extraction, the harness, the specification files spec/SpecBC.v and spec/SpecBC7Tables.v.",
+  tech="Coq proof (finite sweeps lifted by lemma for the integer finalisers, div/mod bit-field lemmas and induction over pixels for the BC7 index stream) + differential execution"),
  "C19": dict(
   text="Coq theorems over the implementation's regenerated tables: for every header from which a format is detected (all valid DXGI codes x alpha modes incl. the premultiplied special cases, every FourCC, every mask pixel format; all other fields symbolic) the pixel layout derived from the header equals the pixel layout of the detected format, so layouts computed with or without a decoder coincide; every implemented format's pixel layout is within the bounds the layout/script theorems assume; size multiples are advertised exactly for the bi-planar formats and equal their sub-sampling; advertised bits per pixel are exact for fixed-size pixels and an upper bound per whole block otherwise. Observed behaviour is tied to the tables by differential execution: header detection sweep here, bytes consumed by decoding in C06, sizes accepted by encoding in C10. The dithering clauses are checked by an implementation-only oracle over all encodable formats.",
   ref="DESIGN.md §6 C19",
